@@ -439,6 +439,15 @@ func propTable() map[string]*PropSpec {
 		tc.RequireReach = nil // since the fix such COMMITs are not counted, so this configuration does not commit
 		q = append(q, tc)
 		th = append(th, tc)
+		tcc := mk(1, 1, 2)
+		tcc.Name += "/trailing=-4"
+		tcc.Params = map[string]int{"me": 1, "honest": 1, "sym": 2, "trailing": -4}
+		tccr := tcc
+		tccr.Name += "/maps=reversed"
+		tccr.MapReverse = true
+		tccr.RequireReach = nil
+		q = append(q, tcc, tccr)
+		th = append(th, tcc)
 		// a committee with a zero-weight member whose genuine COMMIT ends up in the certificate
 		zw := mk(1, 3, 1)
 		zw.Name += "/weights=5"
@@ -643,7 +652,15 @@ func propTable() map[string]*PropSpec {
 		tn0 := mkN(1, -1)
 		tn0.Name += "/trailing=4"
 		tn0.Params = map[string]int{"sym": 1, "prepares": -1, "trailing": 4}
-		q := []RunConfig{tv, tn, tn0, bl, mkV(2, 1), mkV(3, 2), mkN(1, -1), mkN(1, 2), mkP(2), mkP(1), mkX(0, 3), mkX(3, 0), mkX(0, 2)}
+		// ... and the same headers signed over their canonical encoding (accepted; they must not resurface verbatim in proofs)
+		tvc := mkV(2, 1)
+		tvc.Name += "/trailing=-4"
+		tvc.Params = map[string]int{"me": 2, "sym": 1, "trailing": -4}
+		tvcr := tvc
+		tvcr.Name += "/maps=reversed"
+		tvcr.MapReverse = true
+		tvcr.RequireReach = nil
+		q := []RunConfig{tv, tvc, tvcr, tn, tn0, bl, mkV(2, 1), mkV(3, 2), mkN(1, -1), mkN(1, 2), mkP(2), mkP(1), mkX(0, 3), mkX(3, 0), mkX(0, 2)}
 		th := append([]RunConfig{}, q...)
 		th = append(th, mkV(3, 1), mkV(2, 2), mkN(0, -1), mkN(2, -1), mkN(1, 0), mkN(1, 3), mkN(2, 2), mkP(3), mkX(2, 0), mkX(2, 3), mkX(3, 2))
 		for _, me := range []int{0, 1, 2} {
